@@ -57,12 +57,12 @@ def run(chk):
             continue
         last = len(r["hist"]) - 1
         for pr in r["problems"]:
-            if pr.get("step", last) != last and pr["kind"] not in ("path", "blocked", "stuck"):
+            if pr.get("step", last) not in (last, "final") and pr["kind"] not in ("path", "blocked", "stuck"):
                 continue
             kinds[pr["kind"]] = kinds.get(pr["kind"], 0) + 1
             rep = {"schedule": r["hist"], "problem": pr}
             if pr["kind"] == "hard_limit_exceeded":
-                if r["overlap"] and not r["model_hard"]:
+                if r["overlap"] and not r["model_hard"] and pr.get("step") != "final":
                     chk.classify("cross_pool_race", rep)
                 else:
                     chk.violation("hard_limit_exceeded:not_predicted_by_model", rep)
